@@ -23,9 +23,9 @@ SPEC = {
             'returned, with and without a failed fetch first; Close with fetches running and messages waiting; Observe after Close) '
             'on a fresh NewBackgroundObserver with 1-3 workers (class saturate: 1 worker, batches of 8; class never: fetches left to '
             'the 150 ms observe timeout at Close; 30% with a 2 ms cleanup loop). Every underlying fetch blocks on a harness channel; '
-            'worker pick-ups are recorded as they reach the gate. Observables: Observe result or Blocked (300 ms watchdog), ids '
-            'waiting in the queue (in-package view) / ids held at the gate after quiescence, cache size, Close returned within 2 s, goroutine count back to the count '
-            'before the observer was built. Samples whose Observe straddled an expiry instant are discarded and redrawn. '
+            'worker pick-ups are recorded as they reach the gate. Observables: Observe result or Blocked (3 s watch), ids '
+            'waiting in the queue (in-package view) / ids held at the gate after quiescence, cache size, Close returned (10 s watch), goroutine count back to the count '
+            'before the observer was built (10 s watch). No verdict depends on the wall clock alone: every wait is for an event (a fetch reaching the gate, the entry written, the cleanup pass done), deadlines are watches that stretch when the test process is starved. Samples in which the harness or Observe touched the cache inside the uncertainty window of an expiry instant (stored-at is only known as an interval), or in which a fetch ran into the observe timeout before Close, are discarded and redrawn (8 times, then recorded as class discarded-timing); pick-ups after Close are recorded oldest-first (which worker reaches the gate first is the choice of the scheduler). '
             'non-trivial = >= 6 events; distinct by full input+output',
     'rule_parts': 'comp: the same schedules through NewCompositeObservers(NewBackgroundObserver(gated observer)) - Observe, IsTokenSupported '
                   'and Close of the composite, judged against the model composed with the merge view (unsupported token = ready no-op, '
@@ -64,7 +64,7 @@ SPEC = {
                   'section): with two concurrent Observe callers a message can be queued twice (F90, latent - one caller today; '
                   'C19_enqueue_check_then_act_refuted; repair in fixes/F90.patch). '
                   'Not proved (tested every run, with the race detector): real-time behaviour and goroutine scheduling - Observe latency '
-                  'under a 300 ms watchdog with all workers blocked, expiry against the wall clock, Close with fetches in flight, '
+                  'under a 3 s watch with all workers blocked, expiry against the wall clock, Close with fetches in flight, '
                   'goroutine count after Close.',
     'level_note': 'Trusted: Coq kernel, hand-written model incl. its channel semantics, differential harness, race detector. '
                   'Liveness ("eventually fetched") is a one-step progress statement under assumed fairness. A message being fetched '
